@@ -29,12 +29,11 @@ int LLVMFuzzerTestOneInput(const uint8_t *data, size_t size)
 	if (ep != NULL && (ep < txt || ep > txt + tl)) {
 		FZ_FAIL("dt_strpdt: end pointer outside the text");
 	}
-	/* compare what the value says, not padding bits */
-	char b1[96], b2[96];
-	size_t n1 = dt_unk_p(d) ? 0 : dt_strfdt(b1, sizeof(b1), "%FT%T|%G-W%V-%u|%j", d);
-	size_t n2 = dt_unk_p(d2) ? 0 : dt_strfdt(b2, sizeof(b2), "%FT%T|%G-W%V-%u|%j", d2);
-	if (dt_unk_p(d) != dt_unk_p(d2) || d.typ != d2.typ || n1 != n2 || memcmp(b1, b2, n1) ||
-	    (ep ? ep - txt : -1) != (ep2 ? ep2 - txt2 : -1)) {
+	/* compare the value fields, not padding bits */
+	int same = dt_unk_p(d) == dt_unk_p(d2) && d.typ == d2.typ && d.sandwich == d2.sandwich &&
+		(d.typ >= DT_PACK ? d.sexy == d2.sexy : (d.d.typ == d2.d.typ && d.d.u == d2.d.u &&
+		 (!d.sandwich || d.t.u == d2.t.u)));
+	if (!same || (ep ? ep - txt : -1) != (ep2 ? ep2 - txt2 : -1)) {
 		FZ_FAIL("dt_strpdt: result depends on bytes behind the terminator");
 	}
 	if (!dt_unk_p(d)) {
